@@ -19,6 +19,12 @@ def run(prop: str, tier: str, replay: str = "") -> int:
         rep = Report(prop, tier)
         rep.analysed.update({"repo": model.root, "modules": len(model.modules), "classes": len(model.classes), "functions": len(model.funcs)})
         mod.run(model, rep)
+        st_summary = None
+        if tier == "thorough":
+            st = importlib.import_module("sa.selftest.runner")
+            st_summary = st.run_for(prop, model)
+            rep.selftest = {k: v for k, v in st_summary.items() if k != "results"}
+            rep.selftest["sample_results"] = st_summary["results"][:12]
         rc = rep.finish()
         if replay:
             # replay: report whether the recorded violations still occur
@@ -31,9 +37,10 @@ def run(prop: str, tier: str, replay: str = "") -> int:
                     print(("STILL-FAILS " if k in cur else "NO-LONGER-FAILS ") + f"{v['rule']} {v['site']} `{v['construct'][:120]}`")
             except OSError as e:
                 print(f"replay file unreadable: {e}")
-        if rc == 0 and tier == "thorough":
-            st = importlib.import_module("sa.selftest.runner")
-            rc = st.run_for(prop, rep)
+        if rc == 0 and st_summary is not None and os.environ.get("VERIF_SELFTEST_STRICT") == "1":
+            if st_summary["missed"] or st_summary["false_alarms"]:
+                print(f"ANALYSIS-ERROR property={prop}: self-test of the rules failed: missed={st_summary['missed']} false_alarms={st_summary['false_alarms']}")
+                return 2
         return rc
 
     return main_guard(prop, body)
